@@ -22,6 +22,11 @@ func ValidateQuery(query string) (string, error) {
 		return "", errors.NewQueryTooLongError(len(query), constants.MaxQueryLength)
 	}
 
+	// Drop bytes that are not valid UTF-8: strings.Map would turn each of them
+	// into a 3-byte U+FFFD, so the sanitized query could outgrow the limit
+	// checked above and fail its own re-validation.
+	query = strings.ToValidUTF8(query, "")
+
 	// Basic sanitization - remove control characters but keep printable chars
 	cleaned := strings.Map(func(r rune) rune {
 		if unicode.IsControl(r) && r != '\n' && r != '\t' {
